@@ -166,7 +166,7 @@ macro_rules! c11_sample_beta {
 //@ besteffort: yes
 //@ prop: C11
 //@ tier: thorough
-//@ cap: 3600
+//@ cap: 1500
 //@ funcs: DirichletFromBeta::<f32>::sample_to_slice; Beta::<f32>::sample (BC trial); Dirichlet::new
 //@ bounds: alpha = [0.05, 0.02, 0.03]; each Beta accepted at its first trial (4 words, all values); output buffer pre-filled with NaN
 //@ assumes: libm::{logf,expf} by contract
@@ -175,7 +175,7 @@ c11_sample_beta!(c11_sample_beta_f32, f32);
 //@ besteffort: yes
 //@ prop: C11
 //@ tier: thorough
-//@ cap: 3600
+//@ cap: 1500
 //@ funcs: DirichletFromBeta::<f64>::sample_to_slice; Beta::<f64>::sample (BC trial); Dirichlet::new
 //@ bounds: alpha = [0.05, 0.02, 0.03]; each Beta accepted at its first trial (4 words); output buffer pre-filled with NaN
 //@ assumes: libm::{log,exp} by contract
